@@ -5,6 +5,7 @@ use crate::modulation::sine::SineOption;
 use super::{sampling_mode::SamplingMode, sine::Sine};
 
 use autd3_core::derive::*;
+use autd3_driver::firmware::fpga::MOD_BUF_SIZE_MAX;
 
 use derive_more::Deref;
 use num::integer::lcm;
@@ -86,7 +87,17 @@ impl<S: Into<SamplingMode> + Clone + Copy + Debug> Modulation for Fourier<S> {
             .option
             .scale_factor
             .unwrap_or(1. / buffers.len() as f32);
-        let res = vec![0f32; buffers.iter().fold(1, |acc, x| lcm(acc, x.len()))];
+        let len = buffers.iter().try_fold(1, |acc, x| {
+            let len = lcm(acc, x.len());
+            if len > MOD_BUF_SIZE_MAX {
+                return Err(ModulationError::new(format!(
+                    "Fourier modulation buffer size ({}) exceeds the maximum ({})",
+                    len, MOD_BUF_SIZE_MAX
+                )));
+            }
+            Ok(len)
+        })?;
+        let res = vec![0f32; len];
         buffers
             .into_iter()
             .fold(res, |mut acc, x| {
